@@ -1,12 +1,12 @@
 package main
 
 import (
-	"os"
 	"encoding/json"
 	"fmt"
 	"go/ast"
 	"go/parser"
 	"go/token"
+	"os"
 	"os/exec"
 	"path/filepath"
 	"sort"
